@@ -42,6 +42,18 @@ func init() {
 		t.Name, t.Params = "C12/"+s+"/header+payload", t.Params+",hp=all"
 		thorough = append(thorough, t)
 	}
+	// several blocks per region in the quick tier: the 4 MiB block size compiled as 96 bytes (it only sizes buffers)
+	for _, m := range []string{"same", "mismatch"} {
+		sb := sc("regions-ttl", m, 4, 60)
+		sb.Name = "C12/regions-ttl-smallblocks/" + m
+		sb.Params += ",perms=swaps" // many messages: every transposition instead of every order
+		sb.Build = Build{Kind: "plain", Consts: map[string]string{"persistence.go:BlockBufferSize": "96"}}
+		quick = append(quick, sb)
+		tb := sb
+		tb.Params += ",pairs=blocks"
+		tb.Shards, tb.BudgetS = 8, 600
+		thorough = append(thorough, tb)
+	}
 	register(&Check{
 		ID: "C12", Level: "fault_enumeration", Engine: "E3-FAULT", DesignRef: "DESIGN.md §4 C12, §3.3",
 		Technique: "complete enumeration of fault families over streams written by the real Store.Persist, each damaged stream read by the real Store.Recover into a fresh store",
